@@ -8,7 +8,7 @@
                       equal after exec in both or untouched in both; next pc and memory agree.
    NOT covered: CSR/system/F/RVC classes, other targets (see tools/props/c07.py MANIFEST). *)
 From PV Require Import Lib.Py Model.Encode Spec.RV32Decode Spec.RV32Exec Model.RvRW
-  Gen.Tab_isa_riscv Gen.Tab_rv_rw Proofs.C08_rv Proofs.C07_exec Proofs.C07_rv.
+  Gen.Tab_isa_riscv Gen.Tab_rv_rw Proofs.C08_rv Proofs.C08_rvfull Proofs.C07_exec Proofs.C07_rv Spec.RVCExec Proofs.C07_rvc.
 From Coq Require Import String.
 Open Scope Z_scope.
 Open Scope list_scope.
@@ -39,6 +39,18 @@ Theorem c07_rv_frame_reads : forall n d c e,
             frame_ok i (defined_registers c ops) /\ reads_ok i (used_registers c ops).
 Proof. exact rv_rw_sound. Qed.
 Print Assumptions c07_rv_frame_reads.
+
+(* UNCONDITIONAL (uses C08's unbounded c08_rv_reference): every covered class of the table, ALL in-range operands,
+   all states - the bytes ppci emits decode to an instruction that respects the declared defs and uses *)
+Theorem c07_rv_frame_reads_full : forall n d c e,
+  nth_error table_riscv n = Some d -> nth_error rw_riscv n = Some c -> ~ In n rw_bad_riscv ->
+  ~ In n (map fst rvref_bad_riscv) ->
+  rv_expectation d = Some e -> assoc_fmt rv_formats (fst e) <> None ->
+  forall ops, in_range d ops = true ->
+  exists bytes i, encode_instr d ops = Ok bytes /\ decode_instr bytes = Some i /\
+            frame_ok i (defined_registers c ops) /\ reads_ok i (used_registers c ops).
+Proof. exact rv_rw_sound_full. Qed.
+Print Assumptions c07_rv_frame_reads_full.
 
 (* the same without the decode hypothesis on C08's bounded operand domain (all registers of each register
    operand, all immediates of <= 13 bits) *)
@@ -94,6 +106,23 @@ Theorem c07_rv_call_partition :
   forallb (fun r => existsb (Z.eqb r) call_clobbers) (rv_ret_reg :: rv_arg_regs) = true.
 Proof. exact rv_call_partition. Qed.
 Print Assumptions c07_rv_call_partition.
+
+(* ---- compressed instructions (Spec/RVCExec.v: expansion to the base instruction, executed as a 2-byte
+   instruction): the expansion writes / reads exactly the registers of the base instruction.  ISA side only; the
+   flags of the RVC classes are checked by the oracle (class table + generated-code instances), not by a table
+   theorem *)
+Theorem c07_rvc_exec_frame : forall i s r, ~ In r (writes i) -> getreg (exec_len2 i s) r = getreg s r.
+Proof. exact exec_len2_frame. Qed.
+Print Assumptions c07_rvc_exec_frame.
+
+Theorem c07_rvc_exec_reads : forall i s s',
+  (forall r, In r (reads i) -> getreg s r = getreg s' r) -> getpc s = getpc s' ->
+  (forall a, loadbyte s a = loadbyte s' a) ->
+  (forall r, In r (writes i) -> getreg (exec_len2 i s) r = getreg (exec_len2 i s') r) /\
+  getpc (exec_len2 i s) = getpc (exec_len2 i s') /\
+  (forall a, loadbyte (exec_len2 i s) a = loadbyte (exec_len2 i s') a).
+Proof. exact exec_len2_reads. Qed.
+Print Assumptions c07_rvc_exec_reads.
 
 (* hypotheses are inhabited: the class of "add" is covered and passes; add x5,x10,x21 declares defs [5] uses [10;21];
    more than 45 classes are covered; the call rows are present *)
